@@ -198,11 +198,11 @@ func (*NeverTypeNode) Type(globalEnv *types.GlobalEnvironment) types.Type {
 }
 
 func (*NeverTypeNode) Class() *value.Class {
-	return value.VoidTypeNodeClass
+	return value.NeverTypeNodeClass
 }
 
 func (*NeverTypeNode) DirectClass() *value.Class {
-	return value.VoidTypeNodeClass
+	return value.NeverTypeNodeClass
 }
 
 func (n *NeverTypeNode) Inspect() string {
